@@ -66,7 +66,8 @@ def generate(ctx: Ctx, work: Work, module: str, constants: dict, name: str, *, s
     if res.violated:
         raise MachineryError("generator run reported a violation: %s\n%s" % (res.violated, res.counterexample[:1500]))
     ctx.add_tlc("generate:" + name, res)
-    return res.json_lines
+    # TLC workers print in a nondeterministic order: sort so that ids, seeds and samples are reproducible
+    return sorted(res.json_lines, key=lambda x: json.dumps(x, sort_keys=True))
 
 
 def model_check(ctx: Ctx, work: Work, module: str, constants: dict, invariants, properties, name: str, timeout=1800):
